@@ -35,6 +35,8 @@ def apply(m, root):
         raise SystemExit(f"mutant {m['id']}: pattern not found in {m['file']}")
     count = m.get("count", 1)
     s2 = s.replace(m["old"], m["new"], count)
+    if m.get("post"):
+        s2 += m["post"]
     p.write_text(s2)
 
 
